@@ -298,5 +298,79 @@ func genMetaShape(repo string) (string, error) {
 	w("Definition load_skips_invalid_topics : bool := %s.\n", metaBool(metaSkips(lm.Body, "IsValidTopicName")))
 	w("Definition load_skips_invalid_channels : bool := %s.\n", metaBool(metaSkips(lm.Body, "IsValidChannelName")))
 	w("Definition start_calls : list string := %s.\n", metaCoqList(metaEvents(start.Body, metaSet("LoadMetadata", "PersistMetadata", "Main"))))
+
+	// the data-path lock over the daemon's life: where New takes it, what Exit does in which order
+	// (every call of Exit with its receiver text; logging and atomics left out; a verifPoint is
+	// listed as "point:<name>" -- the harness parks the daemon there), and what DirLock does
+	exit := nsqd.method("NSQD", "Exit")
+	nw := nsqd.funcDecl("New")
+	dl, err := loadPkg(repo, "internal/dirlock")
+	if err != nil {
+		return "", err
+	}
+	dll := dl.method("DirLock", "Lock")
+	dlu := dl.method("DirLock", "Unlock")
+	for _, c := range []struct {
+		fd *ast.FuncDecl
+		n  string
+	}{{exit, "NSQD.Exit"}, {nw, "nsqd.New"}, {dll, "DirLock.Lock"}, {dlu, "DirLock.Unlock"}} {
+		if err := need(c.fd, c.n); err != nil {
+			return "", err
+		}
+	}
+	w("\n(* the data-path lock: nsqd.New, NSQD.Exit (calls with their receivers, source order), internal/dirlock *)\n")
+	w("Definition new_path_calls : list string := %s.\n", metaCoqList(metaFullCalls(nw.Body, func(s string) bool {
+		return strings.Contains(s, ".dl.") || strings.HasSuffix(s, ".LoadMetadata") || strings.HasSuffix(s, ".PersistMetadata") || strings.HasSuffix(s, ".Main")
+	})))
+	w("Definition exit_calls : list string := %s.\n", metaCoqList(metaFullCalls(exit.Body, func(s string) bool {
+		return !strings.HasSuffix(s, ".logf") && !strings.HasPrefix(s, "atomic.")
+	})))
+	dlSet := metaSet("Open", "OpenFile", "Flock", "Close", "Unlock", "Remove")
+	w("Definition dirlock_lock_calls : list string := %s.\n", metaCoqList(metaEvents(dll.Body, dlSet)))
+	w("Definition dirlock_lock_how : string := \"%s\".\n", metaFlockHow(dll))
+	w("Definition dirlock_unlock_calls : list string := %s.\n", metaCoqList(metaEvents(dlu.Body, dlSet)))
+	w("Definition dirlock_unlock_how : string := \"%s\".\n", metaFlockHow(dlu))
 	return sb.String(), nil
+}
+
+// metaFullCalls lists, in source order, every call of n as the text of the called expression
+// ("n.dl.Unlock", "topic.Close", "close:exitChan" for the builtin close(x.exitChan),
+// "point:<name>" for verifPoint("<name>")) that keep accepts.
+func metaFullCalls(n ast.Node, keep func(string) bool) []string {
+	var out []string
+	ast.Inspect(n, func(x ast.Node) bool {
+		c, ok := x.(*ast.CallExpr)
+		if !ok {
+			return true
+		}
+		name := types.ExprString(c.Fun)
+		if id, ok := c.Fun.(*ast.Ident); ok && len(c.Args) == 1 {
+			switch id.Name {
+			case "close":
+				name = "close:" + types.ExprString(c.Args[0])
+				if sel, ok := c.Args[0].(*ast.SelectorExpr); ok {
+					name = "close:" + sel.Sel.Name
+				}
+			case "verifPoint":
+				name = "point:" + strings.Trim(types.ExprString(c.Args[0]), "\"")
+			}
+		}
+		if keep(name) {
+			out = append(out, name)
+		}
+		return true
+	})
+	return out
+}
+
+// metaFlockHow: the text of the second argument of the Flock call in fd.
+func metaFlockHow(fd *ast.FuncDecl) string {
+	res := "?"
+	ast.Inspect(fd.Body, func(x ast.Node) bool {
+		if c, ok := x.(*ast.CallExpr); ok && metaCallName(c) == "Flock" && len(c.Args) == 2 {
+			res = types.ExprString(c.Args[1])
+		}
+		return true
+	})
+	return res
 }
